@@ -13,6 +13,10 @@ class GzipMiddleware(Middleware):
 
     def request(self, next, request):
         resp = next()
+        if not hasattr(resp, 'content_encoding'):
+            # e.g., HTTPExceptions (404/405/...), which are BaseResponses
+            # without the common header descriptors
+            return resp
         # TODO: shortcut redirects/304s/responses without content?
         resp.vary.add('Accept-Encoding')
         if resp.content_encoding or not request.accept_encodings['gzip']:
